@@ -131,9 +131,26 @@ pub struct Interp<R: Reg> {
     prev: Vec<Option<brood::verif::Dump>>,
     /// slots the current step operated on (the others only get the cheap unchanged-check)
     touched: [bool; NSLOTS],
+    /// the property whose oracles decide this run
+    pub prop: String,
+    /// observer oracles of *other* properties that already fired in this case: they are recorded
+    /// once and then muted so that the case can go on to reach this property's own oracles
+    pub muted: HashSet<&'static str>,
+    pub foreign: Vec<Fail>,
+    pub mute: bool,
+    /// step at which a *structural* observer (audit / resolve) of another property first fired;
+    /// the case is cut a few steps later because broken bookkeeping makes a crash likely
+    structural_at: Option<usize>,
 }
 
 type FResult = Result<(), Fail>;
+
+/// Oracles that only observe (they do not feed the reference model): when one of them fires for a
+/// property other than the one being checked it is recorded, muted for the rest of the case, and
+/// the case continues.
+pub const OBSERVERS: [&str; 12] = [
+    "ledger", "allocator", "resolve", "resolve-same-entity", "audit", "audit-twin", "exactly-once", "exactly-once-count", "fresh-value", "value-shared", "len", "lockstep-snapshot",
+];
 
 fn idx(t: u16, len: usize) -> usize {
     (t as usize * len) >> 16
@@ -164,6 +181,11 @@ impl<R: Reg> Interp<R> {
             clone_marks: [false; NSLOTS],
             prev: (0..NSLOTS).map(|_| None).collect(),
             touched: [true; NSLOTS],
+            prop: String::new(),
+            muted: HashSet::new(),
+            foreign: Vec::new(),
+            mute: true,
+            structural_at: None,
         };
         s.ensure(0);
         s
@@ -219,7 +241,36 @@ impl<R: Reg> Interp<R> {
         // Values constructed during the step (harness-made or library-made).
         self.made_this_step.extend(ledger::take_made());
         r?;
-        self.check_all()
+        loop {
+            match self.check_all() {
+                Err(f) if self.mute && !self.owns(&f) && OBSERVERS.contains(&f.oracle) && !self.muted.contains(f.oracle) => {
+                    if matches!(f.oracle, "audit" | "audit-twin" | "resolve" | "resolve-same-entity" | "len") && self.structural_at.is_none() {
+                        self.structural_at = Some(self.step);
+                    }
+                    self.muted.insert(f.oracle);
+                    self.foreign.push(f);
+                }
+                Ok(()) if self.structural_at.map_or(false, |at| self.step >= at + 3) => {
+                    // stop here: report the recorded foreign failure, not a crash
+                    return Err(self.foreign[0].clone());
+                }
+                other => return other,
+            }
+        }
+    }
+
+    /// Does a failure count for the property being checked? C10 and C06 promise that a cloned /
+    /// deserialized world "keeps satisfying every other property": in their checks a failure of
+    /// those oracles after a clone / after the deserialized world took over counts as their own.
+    pub fn owns(&self, f: &Fail) -> bool {
+        const OTHERS: [&str; 7] = ["C01", "C02", "C03", "C04", "C05", "C13", "C15"];
+        let prop = self.prop.as_str();
+        f.props.contains(&prop)
+            || (f.props.iter().any(|p| OTHERS.contains(p)) && ((prop == "C10" && self.stats.clones > 0) || (prop == "C06" && self.stats.deser_replaced > 0)))
+    }
+
+    fn on(&self, oracle: &'static str) -> bool {
+        !self.muted.contains(oracle)
     }
 
     fn issue(&mut self, w: u8, id: Id, comps: Vec<Option<MVal>>) -> FResult {
@@ -992,15 +1043,18 @@ impl<R: Reg> Interp<R> {
         let step = self.step;
         // (1) ledger errors: double drops, drops of unknown / reinterpreted values
         let errs = ledger::take_errors();
-        if let Some(e) = errs.first() {
+        if let (Some(e), true) = (errs.first(), self.on("ledger")) {
             let props: &'static [&'static str] = if e.contains("reinterpreted") || e.contains("freed/uninitialised") { &["C04", "C05"] } else { &["C04"] };
             return Err(Fail { props, oracle: "ledger", msg: format!("{e} ({} ledger errors in this step)", errs.len()), step });
         }
         // (2) allocator errors
         talloc::check_quarantine();
-        if let Some(d) = talloc::describe(&talloc::errors()) {
+        if let (Some(d), true) = (talloc::describe(&talloc::errors()), self.on("allocator")) {
             return Err(Fail { props: &["C05"], oracle: "allocator", msg: d, step });
         }
+        let (on_len, on_fresh, on_shared, on_resolve, on_resolve2, on_audit, on_twin, on_once, on_count, on_lock) = (
+            self.on("len"), self.on("fresh-value"), self.on("value-shared"), self.on("resolve"), self.on("resolve-same-entity"), self.on("audit"), self.on("audit-twin"), self.on("exactly-once"), self.on("exactly-once-count"), self.on("lockstep-snapshot"),
+        );
         let mut all_serials: HashMap<u64, (usize, &'static str)> = HashMap::new();
         let mut counts: HashMap<(u8, u8), i64> = HashMap::new();
         let made = std::mem::take(&mut self.made_this_step);
@@ -1013,7 +1067,7 @@ impl<R: Reg> Interp<R> {
             };
             let len = R::len(&s.real);
             let empty = R::is_empty(&s.real);
-            if len != s.model.ents.len() || empty != s.model.ents.is_empty() {
+            if on_len && (len != s.model.ents.len() || empty != s.model.ents.is_empty()) {
                 return Err(Fail { props: &["C01", "C13"], oracle: "len", msg: format!("world {w}: len() = {len}, is_empty() = {empty}, reference map holds {} entities", s.model.ents.len()), step });
             }
             if snap.len() != s.model.ents.len() {
@@ -1038,14 +1092,14 @@ impl<R: Reg> Interp<R> {
                             }
                             if R::has_serial(c) {
                                 if m.serial == 0 {
-                                    if !made.contains(&o.serial) {
+                                    if on_fresh && !made.contains(&o.serial) {
                                         return Err(Fail { props: &["C04", "C10"], oracle: "fresh-value", msg: format!("world {w}: component {c} of {id:?} entered the world in this step but carries serial {:#x}, which was not constructed in this step (a copy shares identity with another value)", o.serial), step });
                                     }
                                     m.serial = o.serial;
                                 } else if m.serial != o.serial {
                                     return Err(Fail { props: &["C01", "C04"], oracle: "value-identity", msg: format!("world {w}: component {c} of {id:?} is now the value with serial {:#x}, it was {:#x} (values exchanged between entities or re-created)", o.serial, m.serial), step });
                                 }
-                                if let Some((ow, _)) = all_serials.insert(o.serial, (w, "component")) {
+                                if let (Some((ow, _)), true) = (all_serials.insert(o.serial, (w, "component")), on_shared) {
                                     return Err(Fail { props: &["C04", "C10"], oracle: "value-shared", msg: format!("value with serial {:#x} is held twice (worlds {ow} and {w})", o.serial), step });
                                 }
                             } else {
@@ -1070,7 +1124,7 @@ impl<R: Reg> Interp<R> {
                     } else if s.model.res_serial[i] != res[i].serial {
                         return Err(Fail { props: &["C15", "C04"], oracle: "resource-identity", msg: format!("world {w}: resource {i} was replaced by another value"), step });
                     }
-                    if all_serials.insert(res[i].serial, (w, "resource")).is_some() {
+                    if all_serials.insert(res[i].serial, (w, "resource")).is_some() && on_shared {
                         return Err(Fail { props: &["C04", "C10", "C15"], oracle: "value-shared", msg: format!("resource value with serial {:#x} is held twice", res[i].serial), step });
                     }
                 } else {
@@ -1093,7 +1147,7 @@ impl<R: Reg> Interp<R> {
                 let live = s.model.ents.contains_key(id);
                 let c = R::contains(&s.real, *id);
                 let h = R::has_entry(&mut s.real, *id);
-                if c != live || h != live || e.is_some() != live {
+                if on_resolve && (c != live || h != live || e.is_some() != live) {
                     return Err(Fail { props: &["C02"], oracle: "resolve", msg: format!("world {w}: identifier {id:?} is {} but contains() = {c}, entry().is_some() = {h}, Entries::entry().is_some() = {}", if live { "live" } else { "stale" }, e.is_some()), step });
                 }
                 if !live {
@@ -1106,15 +1160,15 @@ impl<R: Reg> Interp<R> {
                     continue;
                 }
                 let comps = &s.model.ents[id];
-                let via_entry = R::entry_snapshot(&mut s.real, *id).unwrap();
-                for (path, obs) in [("World::entry", &via_entry), ("Entries::entry", e.as_ref().unwrap())] {
+                let (Some(via_entry), Some(via_entries)) = (R::entry_snapshot(&mut s.real, *id), e.as_ref()) else { continue };
+                for (path, obs) in [("World::entry", &via_entry), ("Entries::entry", via_entries)] {
                     for c in 0..R::N {
                         let ok = match (&comps[c], obs[c]) {
                             (None, None) => true,
                             (Some(m), Some(o)) => o.payload == m.payload && (!R::has_serial(c) || o.serial == m.serial),
                             _ => false,
                         };
-                        if !ok {
+                        if !ok && on_resolve2 {
                             return Err(Fail { props: &["C02", "C03"], oracle: "resolve-same-entity", msg: format!("world {w}: {path}({id:?}) shows component {c} = {:?}, the entity holds {:?} (identifier resolves to another entity's row)", obs[c].map(|o| (o.payload, o.serial)), comps[c]), step });
                         }
                     }
@@ -1122,7 +1176,7 @@ impl<R: Reg> Interp<R> {
             }
             // (5) audit
             self.stats.audits += 1;
-            audit::<R>(&d, &s.model, len).map_err(|msg| Fail { props: &["C13"], oracle: "audit", msg: format!("world {w}: {msg}"), step })?;
+            if on_audit { audit::<R>(&d, &s.model, len) } else { Ok(()) }.map_err(|msg| Fail { props: &["C13"], oracle: "audit", msg: format!("world {w}: {msg}"), step })?;
             // classification
             let nonempty = d.archetypes.iter().filter(|a| a.length > 0).count();
             self.stats.max_nonempty_archetypes = self.stats.max_nonempty_archetypes.max(nonempty);
@@ -1171,7 +1225,7 @@ impl<R: Reg> Interp<R> {
                     Ok(m) => m,
                     Err(e) => return Err(Fail { props: &["C06"], oracle: "lockstep-snapshot", msg: format!("world {w} deserialized twin: {e}"), step }),
                 };
-                if let Some(diff) = snap_diff(&ssnap, &snap) {
+                if let (Some(diff), true) = (snap_diff(&ssnap, &snap), on_lock) {
                     return Err(Fail { props: &["C06"], oracle: "lockstep-snapshot", msg: format!("world {w}: deserialized twin diverged from the original: {diff}"), step });
                 }
                 let sres = R::res_snapshot(sh);
@@ -1189,7 +1243,7 @@ impl<R: Reg> Interp<R> {
                     for c in 0..R::N {
                         if let Some(o) = obs[c] {
                             if R::has_serial(c) {
-                                if let Some((ow, _)) = all_serials.insert(o.serial, (w, "shadow component")) {
+                                if let (Some((ow, _)), true) = (all_serials.insert(o.serial, (w, "shadow component")), on_shared) {
                                     return Err(Fail { props: &["C04", "C06"], oracle: "value-shared", msg: format!("deserialized twin of world {w} shares the value with serial {:#x} ({id:?}) with world {ow}", o.serial), step });
                                 }
                             } else {
@@ -1200,12 +1254,12 @@ impl<R: Reg> Interp<R> {
                     }
                 }
                 let sd = R::dump(sh);
-                audit_structure(&sd, R::N).map_err(|msg| Fail { props: &["C13", "C06"], oracle: "audit-twin", msg: format!("world {w} deserialized twin: {msg}"), step })?;
+                if on_twin { audit_structure(&sd, R::N) } else { Ok(()) }.map_err(|msg| Fail { props: &["C13", "C06"], oracle: "audit-twin", msg: format!("world {w} deserialized twin: {msg}"), step })?;
             }
         }
         // (4) ledger == union of everything the worlds hold
         let live = ledger::live_serials();
-        if live.len() != all_serials.len() || live.iter().any(|s| !all_serials.contains_key(s)) {
+        if on_once && (live.len() != all_serials.len() || live.iter().any(|s| !all_serials.contains_key(s))) {
             let leaked: Vec<String> = live.iter().filter(|s| !all_serials.contains_key(s)).take(4).map(|s| format!("{s:#x}")).collect();
             let early: Vec<String> = all_serials.keys().filter(|s| !live.contains(s)).take(4).map(|s| format!("{s:#x}")).collect();
             return Err(Fail { props: &["C04"], oracle: "exactly-once", msg: format!("values alive but owned by no world (not dropped when they left): {leaked:?}; values held by a world but already dropped: {early:?}"), step });
@@ -1215,14 +1269,14 @@ impl<R: Reg> Interp<R> {
                 let (k, n) = R::comp_kind(c);
                 let want = counts.get(&(k as u8, n)).copied().unwrap_or(0);
                 let have = ledger::live_count(k, n);
-                if want != have {
+                if want != have && on_count {
                     return Err(Fail { props: &["C04"], oracle: "exactly-once-count", msg: format!("{have} live values of component {c} ({k:?}) but the worlds hold {want}"), step });
                 }
             }
         }
         let want = counts.get(&(ledger::Kind::Res as u8, 2)).copied().unwrap_or(0);
         let have = ledger::live_count(ledger::Kind::Res, 2);
-        if want != have {
+        if want != have && on_count {
             return Err(Fail { props: &["C04", "C15"], oracle: "exactly-once-count", msg: format!("{have} live zero-sized resources but the worlds hold {want}"), step });
         }
         Ok(())
